@@ -343,3 +343,13 @@ pub fn ref_offsets(depth: u8, h: u64, lon: f64, lat: f64) -> Option<(f64, f64)> 
   }
   best.map(|b| b.1)
 }
+
+/// Geometric adjacency from the reference geometry only: the two cells are the same cell or share at least one vertex
+/// (two of their reference vertices are closer than 1e-3 cell size).
+pub fn cells_adjacent(depth: u8, a: u64, b: u64) -> bool {
+  if a == b { return true; }
+  let (va, vb) = (ref_vertices(depth, a), ref_vertices(depth, b));
+  let tol = 1e-3 / nside(depth) as f64;
+  for p in va.iter() { for q in vb.iter() { if (p.1 - q.1).abs() <= tol && dist(*p, *q) <= tol { return true; } } }
+  false
+}
